@@ -3,7 +3,7 @@ CONSTANTS
   Scen1 <- ScenB1
   Scen2 <- ScenB2
   ClearChoices = {TRUE, FALSE}
-  Installs = {TRUE, FALSE}
+  Installs = {TRUE}
   ResetsResult = TRUE
 CONSTRAINT ExportC
 INVARIANT ResultRight
